@@ -59,6 +59,8 @@ def canon(v, idmap=None, depth=0, seen=None):
         if depth and "', '" in v and v.startswith("'"):
             # MatchError args carry the hash-ordered key list as one string
             return ', '.join(sorted(v.split(', ')))
+        if '0x' in v:
+            return norm_text(v)      # e.g. repr() of an object graph computed by the spec itself
         return v
     if t in (int, bool, type(None)):
         return v
@@ -117,6 +119,14 @@ def canon(v, idmap=None, depth=0, seen=None):
 def canon_exc(e, idmap=None, depth=0, seen=None):
     args = [canon(a, idmap, depth + 1, seen) for a in getattr(e, 'args', ())]
     return ['exc', type(e).__name__, args]
+
+
+def mentions_recursion(x):
+    """does a canonical outcome / event log involve a RecursionError?  Where the interpreter gives up
+    depends on how deep the harness's own stack is (thread vs main thread, nested calls), so such
+    outcomes are not comparable between a simulated and an isolated run"""
+    import json
+    return 'RecursionError' in json.dumps(x, default=str)
 
 
 def mro_names(cls):
